@@ -145,7 +145,9 @@ impl Model {
                 } else {
                     self.w - self.dense.max(1).min(self.w)
                 };
-                row < self.h && a <= b && b <= lim && self.defined(row, a, b)
+                // start_col must name a column: count_ones(last_row, w, w) indexes one word past the
+                // matrix when w % 64 == 0 on the unchanged tree (same undocumented corner)
+                row < self.h && a <= b && b <= lim && (a < self.w || !dense_impl) && self.defined(row, a, b)
             }
             Op::OnesInCol { col, a, b } => {
                 if dense_impl {
